@@ -7,6 +7,7 @@ package bodies
 import (
 	"fmt"
 	"math/big"
+	"reflect"
 	"sort"
 	"strings"
 
@@ -866,4 +867,43 @@ func Charge(kind string, base uint64, r ExecResult) uint64 {
 		return bi["ESDTNFTAddURI"] + bo["StorePerByte"]*uint64(len("another-uri"))
 	}
 	return 0
+}
+
+// ToGasCost fills the library's gas-cost struct from a schedule (field names are the map keys).
+func ToGasCost(s map[string]map[string]uint64) *vmcommon.GasCost {
+	gc := &vmcommon.GasCost{}
+	bi := reflect.ValueOf(&gc.BuiltInCost).Elem()
+	for k, v := range s[vmcommon.BuiltInCostString] {
+		if f := bi.FieldByName(k); f.IsValid() && f.CanSet() {
+			f.SetUint(v)
+		}
+	}
+	bo := reflect.ValueOf(&gc.BaseOperationCost).Elem()
+	for k, v := range s[vmcommon.BaseOperationCostString] {
+		if f := bo.FieldByName(k); f.IsValid() && f.CanSet() {
+			f.SetUint(v)
+		}
+	}
+	return gc
+}
+
+// DeliverDirectly hands the schedule to every function object of the container through
+// SetNewGasConfig and then overwrites the struct it was delivered in (its owner reuses it).
+func DeliverDirectly(l *Lite, base uint64) {
+	gc := ToGasCost(Schedule(base))
+	for _, name := range vsortedKeys(l.Container.Keys()) {
+		if f, err := l.Container.Get(name); err == nil {
+			f.SetNewGasConfig(gc)
+		}
+	}
+	*gc = *ToGasCost(Schedule(900000))
+}
+
+func vsortedKeys(m map[string]struct{}) []string {
+	out := make([]string, 0, len(m))
+	for k := range m {
+		out = append(out, k)
+	}
+	sort.Strings(out)
+	return out
 }
